@@ -43,7 +43,7 @@ ASSUMPTIONS = [
 PROBES = ["invivo_pipeline_reads_checked", "invivo_restored_items_checked", "invivo_xprocess_items_checked", "resave_then_get", "get_from_disk", "save_crossed_max_rows", "resave_exported_item",
           "restart_clean", "restart_unclean", "multi_bundle", "item_cache_evicted", "bundle_cache_evicted",
           "absent_read", "fault_write_enospc", "fault_write_torn", "fault_read_eio", "fault_reported",
-          "read_after_fault_ok", "restart_after_fault", "dict_restore", "xprocess_restart"]
+          "read_after_fault_ok", "restart_after_fault", "dict_restore", "xprocess_restart", "numpy_integer_key"]
 # the same check again, smaller, in interpreters started with assertions stripped (python -O / PYTHONOPTIMIZE=1)
 ENV_VARIANTS = [{"name": "python-O", "env": {"PYTHONOPTIMIZE": "1"}, "runs": {'quick': 900, 'thorough': 9000}}]
 TIERS = {
@@ -143,6 +143,8 @@ def generate(rng, k):
             tok = 1000 * n_saves
             size = rng.randint(1, k["max_size"]) if rng.random() > 0.08 else 0      # sometimes an item without any row
             op = {"op": "save", "id": i, "tok": tok, "desc": fam.gen(rng, tok, size)}
+            if rng.random() < 0.1:
+                op["npkey"] = True       # the id arrives as a numpy integer (ids read from table rows are)
             if i not in saved:
                 saved.append(i)
             last_id = i
@@ -155,6 +157,8 @@ def generate(rng, k):
             else:
                 i = rng.randrange(n_ids)
             op = {"op": "get", "id": i}
+            if rng.random() < 0.1:
+                op["npkey"] = True
             last_id = i
         elif kind == "exp":
             op = {"op": rng.choice(["export", "export", "export_indexing", "full_export", "full_export"])}
@@ -203,6 +207,18 @@ def pure_roundtrip(fam, key, obj):
     flat = ref.flatten_item_when_saving(key, obj)
     dm = _DM(flat, columns=ref.item_schema)
     return ref.unflatten_item_dataframe_when_loading(key, dm)
+
+
+def npkey(key):
+    """the same id as a numpy integer (only for plain ints that fit); CallSite keys stay as they are"""
+    import numpy
+    if isinstance(key, int) and not isinstance(key, bool) and -2 ** 62 < key < 2 ** 62:
+        hit_np[0] += 1
+        return numpy.int64(key)
+    return key
+
+
+hit_np = [0]
 
 
 def _classify(res_json, i, M):
@@ -563,7 +579,7 @@ def execute(trace):
             trans.add(h64(fam.name + pre_state + kind))
             if kind == "save":
                 i = op["id"] % len(keys)
-                key = keys[i]
+                key = npkey(keys[i]) if op.get("npkey") else keys[i]
                 expected = cjson(pure_roundtrip(fam, key, fam.build(key, op["desc"])))
                 toks = tokens(canon(fam.build(key, op["desc"])))
                 was_exported = i in M["exported"] and i not in M["active"]
@@ -593,7 +609,7 @@ def execute(trace):
                 log.append(["save", i, nw])
             elif kind in ("get", "contain"):
                 i = op["id"] % len(keys)
-                key = keys[i]
+                key = npkey(keys[i]) if op.get("npkey") else keys[i]
                 if kind == "contain":
                     res, out, err = sut(lambda: fam.contain(loader, key))
                     diskseam.end_op()
@@ -718,6 +734,9 @@ def execute(trace):
         _config.MAX_ROWS = old_max_rows
         shutil.rmtree(run_dir, ignore_errors=True)
 
+    if hit_np[0]:
+        probes["numpy_integer_key"] = hit_np[0]
+        hit_np[0] = 0
     return {"violation": violation, "probes": probes, "faults": faults_out(probes), "states": states, "trans": trans,
             "steps": len(trace["ops"]), "log": digest_hex([log, violation]),
             "extra": {f"family:{fam.name}": 1, "feather_writes": diskseam.STATE["total_writes"],
